@@ -155,6 +155,7 @@ class Inliner:
             f0 = self.p0.funcs[q]
             if f0.outer is not None:
                 continue
+            self._host_q = q
             fn.body = self.block(fn.body, fn, [q], 0)
         ast.fix_missing_locations(self.m.tree)
         return self.stats
@@ -356,8 +357,22 @@ class Inliner:
             return None
         q = quals[0]
         h0 = self.p0.funcs[q]
-        if not _is_candidate_name(h0.name) or h0.outer is not None:
+        if not _is_candidate_name(h0.name):
             return None
+        if h0.outer is not None:
+            # a closure: only a plain `def` directly in the body of the function being rewritten, bound once, called after its definition
+            # (its free variables are the host's locals, read at call time in both forms)
+            host_q = getattr(self, "_host_q", None)
+            if host_q is None or h0.outer.qual != host_q or h0.outer.outer is not None:
+                return None
+            hostdef = self.defs.get(host_q)
+            if hostdef is None:
+                return None
+            defs_ = [st for st in hostdef.body if isinstance(st, ast.FunctionDef) and st.name == h0.name]
+            rebinds = [n for n in ast.walk(hostdef) if isinstance(n, ast.Name) and n.id == h0.name and isinstance(n.ctx, (ast.Store, ast.Del))]
+            others = [n for n in ast.walk(hostdef) if isinstance(n, (ast.FunctionDef, ast.ClassDef)) and n.name == h0.name and n not in defs_]
+            if len(defs_) != 1 or rebinds or others or defs_[0].decorator_list or call.lineno <= defs_[0].lineno:
+                return None
         if h0.module.name == self.m.name:
             return q if q in self.pristine else None
         # a helper of another module (function or method): only if every global name its body uses means the same thing in this module
@@ -1024,6 +1039,14 @@ def inline_modules(p0, modules: dict):
                 if isinstance(st_, ast.FunctionDef) and _is_candidate_name(st_.name) and refs.get(st_.name, 0) == 0 and all((isinstance(d, ast.Name) and d.id in ("staticmethod", "classmethod", "contextmanager")) or ast.unparse(d) == "contextlib.contextmanager" for d in st_.decorator_list):
                     dead.append((st_.lineno, st_.col_offset))
                     st_._dead_helper = True  # type: ignore[attr-defined]
+        # closures whose every call was inlined: no reference to the name is left inside the enclosing function
+        for fn in [n for n in ast.walk(m.tree) if isinstance(n, ast.FunctionDef)]:
+            for st_ in fn.body:
+                if isinstance(st_, ast.FunctionDef) and _is_candidate_name(st_.name) and not st_.decorator_list:
+                    inner_refs = [n for n in ast.walk(fn) if isinstance(n, ast.Name) and n.id == st_.name and not any(n is y for y in ast.walk(st_))]
+                    if not inner_refs:
+                        dead.append((st_.lineno, st_.col_offset))
+                        st_._dead_helper = True  # type: ignore[attr-defined]
         if dead:
             stats[name]["dead_helpers"] = len(dead)
     for m in modules.values():
